@@ -117,7 +117,7 @@ def check_tree(ctx):
             if not bad and first_inv and first_inv[0][1] != want:
                 bad = "the invocation is announced with function identity %s, expected %s" % (hx(first_inv[0][1]), hx(want))
         if bad:
-            ctx.violations.append({"check": ctx.name, "kernel": "k_tree", "violated": bad, "inputs": {"shape": mval(m, shape), "x": hex(mval(m, x)), "exceptional": exceptional},
+            ctx.report(q, {"check": ctx.name, "kernel": "k_tree", "violated": bad, "inputs": {"shape": mval(m, shape), "x": hex(mval(m, x)), "exceptional": exceptional},
                                    "outcome": q.status, "log": [str(s) for s in seq][:12], "replayed": None})
         else:
             ctx.discharged += 1
